@@ -289,6 +289,9 @@ func finish(s *spec, tier string, parts []*PartResult, wall time.Duration) int {
 	for _, p := range parts {
 		if p.Supplementary {
 			findings = append(findings, p.Findings...)
+			if p.Coverage != nil {
+				p.Coverage["exhaustive"] = false // a sampling pass: finishing its rounds decides nothing
+			}
 			perPart[p.Name+" (supplementary)"] = p.Coverage
 			continue
 		}
